@@ -1,10 +1,13 @@
 package codec
 
 // Harness for property C23 (the RLP codec round-trips every supported value
-// and rejects malformed input).
+// and rejects malformed input).  Everything below goes through the public
+// entry points BC.MarshalToBytes / BC.UnmarshalFromBytes, i.e. through the
+// reflective encoder/decoder and the rlpWriter/rlpReader.
 
 import (
 	"bytes"
+	"math/big"
 
 	"github.com/icon-project/goloop/zzverif/sym"
 )
@@ -31,6 +34,93 @@ func VH_C23_uint64() {
 	sym.Assert(err == nil, "uint64 decodes")
 	sym.Assert(r == v, "uint64 round trip")
 	sym.Assert(len(rest) == 0, "uint64 decoding consumes the whole encoding")
+}
+
+// the narrower integer kinds, bool
+func VH_C23_small_scalars() {
+	{
+		v := sym.I8("i8")
+		bs, err := BC.MarshalToBytes(v)
+		var r int8
+		rest, err2 := BC.UnmarshalFromBytes(bs, &r)
+		sym.Assert(sym.And(err == nil, err2 == nil, r == v, len(rest) == 0), "int8 round trip")
+	}
+	{
+		v := sym.I16("i16")
+		bs, err := BC.MarshalToBytes(v)
+		var r int16
+		rest, err2 := BC.UnmarshalFromBytes(bs, &r)
+		sym.Assert(sym.And(err == nil, err2 == nil, r == v, len(rest) == 0), "int16 round trip")
+	}
+	{
+		v := sym.U8("u8")
+		bs, err := BC.MarshalToBytes(v)
+		var r uint8
+		rest, err2 := BC.UnmarshalFromBytes(bs, &r)
+		sym.Assert(sym.And(err == nil, err2 == nil, r == v, len(rest) == 0), "uint8 round trip")
+	}
+	{
+		v := sym.U16("u16")
+		bs, err := BC.MarshalToBytes(v)
+		var r uint16
+		rest, err2 := BC.UnmarshalFromBytes(bs, &r)
+		sym.Assert(sym.And(err == nil, err2 == nil, r == v, len(rest) == 0), "uint16 round trip")
+	}
+	{
+		v := sym.Bool("b")
+		bs, err := BC.MarshalToBytes(v)
+		var r bool
+		rest, err2 := BC.UnmarshalFromBytes(bs, &r)
+		sym.Assert(sym.And(err == nil, err2 == nil, r == v, len(rest) == 0), "bool round trip")
+	}
+}
+
+func VH_C23_int32s() {
+	{
+		v := sym.I32("i32")
+		bs, err := BC.MarshalToBytes(v)
+		var r int32
+		rest, err2 := BC.UnmarshalFromBytes(bs, &r)
+		sym.Assert(sym.And(err == nil, err2 == nil, r == v, len(rest) == 0), "int32 round trip")
+	}
+	{
+		v := sym.U32("u32")
+		bs, err := BC.MarshalToBytes(v)
+		var r uint32
+		rest, err2 := BC.UnmarshalFromBytes(bs, &r)
+		sym.Assert(sym.And(err == nil, err2 == nil, r == v, len(rest) == 0), "uint32 round trip")
+	}
+}
+
+// byte strings and strings, including the 55/56 boundary of the length header;
+// nil and empty byte slices stay distinct
+func vhC23Len(name string) int {
+	lens := []int{0, 1, 2, 55, 56}
+	return lens[sym.Choose(name, sym.Param("NLENS", 5))]
+}
+
+func VH_C23_bytes() {
+	var b []byte
+	if !sym.Bool("nil") {
+		b = sym.Bytes("b", vhC23Len("len"))
+	} else {
+		sym.Reach("nil")
+	}
+	bs, err := BC.MarshalToBytes(b)
+	sym.Assert(err == nil, "[]byte encodes")
+	r := []byte{9}
+	rest, err := BC.UnmarshalFromBytes(bs, &r)
+	sym.Assert(err == nil, "[]byte decodes")
+	sym.Assert(len(rest) == 0, "[]byte decoding consumes the whole encoding")
+	sym.Assert((r == nil) == (b == nil), "nil and empty byte slices stay distinct")
+	sym.Assert(bytes.Equal(r, b), "[]byte round trip")
+	s := sym.String("s", vhC23Len("slen"))
+	bs, err = BC.MarshalToBytes(s)
+	sym.Assert(err == nil, "string encodes")
+	var rs string
+	rest, err = BC.UnmarshalFromBytes(bs, &rs)
+	sym.Assert(sym.And(err == nil, len(rest) == 0), "string decodes")
+	sym.Assert(rs == s, "string round trip")
 }
 
 type vhC23Struct struct {
@@ -70,13 +160,279 @@ func VH_C23_struct() {
 	}
 }
 
-func VH_C23_probe_decode_int32() {
-	b := sym.Bytes("b", sym.Len("n", 2))
-	var x int32
-	_, err := BC.UnmarshalFromBytes(b, &x)
-	if err == nil {
-		sym.Reach("ok")
-	} else {
-		sym.Reach("err")
+type vhC23Inner struct {
+	X uint8
+	Y []int16
+}
+
+type vhC23Outer struct {
+	P *vhC23Inner
+	L []vhC23Inner
+	N int8
+}
+
+// lists, nested structs, pointers to structs, nil pointers
+func VH_C23_nested() {
+	var o vhC23Outer
+	if !sym.Bool("pnil") {
+		o.P = &vhC23Inner{X: sym.U8("px")}
+		n := sym.Len("pyl", 2)
+		if n > 0 || sym.Bool("pyempty") {
+			o.P.Y = make([]int16, n)
+			for i := range o.P.Y {
+				o.P.Y[i] = sym.I16("py")
+			}
+		}
 	}
+	nl := sym.Len("ll", 2)
+	if nl > 0 {
+		o.L = make([]vhC23Inner, nl)
+		for i := range o.L {
+			o.L[i].X = sym.U8("lx")
+		}
+	}
+	o.N = sym.I8("n")
+	bs, err := BC.MarshalToBytes(&o)
+	sym.Assert(err == nil, "nested value encodes")
+	bs2, err := BC.MarshalToBytes(&o)
+	sym.Assert(err == nil && bytes.Equal(bs, bs2), "encoding is deterministic")
+	var r vhC23Outer
+	rest, err := BC.UnmarshalFromBytes(bs, &r)
+	sym.Assert(err == nil, "nested value decodes")
+	sym.Assert(len(rest) == 0, "nested decoding consumes the whole encoding")
+	sym.Assert(r.N == o.N, "scalar after nested parts round trips")
+	sym.Assert((r.P == nil) == (o.P == nil), "pointer to struct: nil-ness round trips")
+	if o.P != nil && r.P != nil {
+		sym.Assert(r.P.X == o.P.X, "pointer to struct: field round trips")
+		sym.Assert(len(r.P.Y) == len(o.P.Y), "slice of integers: length round trips")
+		sym.Assert((r.P.Y == nil) == (o.P.Y == nil), "slice of integers: nil and empty stay distinct")
+		for i := range o.P.Y {
+			if i < len(r.P.Y) {
+				sym.Assert(r.P.Y[i] == o.P.Y[i], "slice of integers: elements round trip")
+			}
+		}
+	}
+	sym.Assert(len(r.L) == len(o.L), "slice of structs: length round trips")
+	for i := range o.L {
+		if i < len(r.L) {
+			sym.Assert(r.L[i].X == o.L[i].X, "slice of structs: elements round trip")
+		}
+	}
+}
+
+// maps: round trip and an encoding that does not depend on insertion order
+func VH_C23_map() {
+	k1, k2 := sym.String("k1", 1), sym.String("k2", 1)
+	v1, v2 := sym.U8("v1"), sym.U8("v2")
+	sym.Assume(k1 != k2)
+	m1 := map[string]uint8{}
+	m1[k1] = v1
+	m1[k2] = v2
+	m2 := map[string]uint8{}
+	m2[k2] = v2
+	m2[k1] = v1
+	b1, err1 := BC.MarshalToBytes(m1)
+	b2, err2 := BC.MarshalToBytes(m2)
+	sym.Assert(err1 == nil && err2 == nil, "maps encode")
+	sym.Assert(bytes.Equal(b1, b2), "map encoding does not depend on insertion order")
+	var r map[string]uint8
+	rest, err := BC.UnmarshalFromBytes(b1, &r)
+	sym.Assert(err == nil && len(rest) == 0, "map decodes")
+	sym.Assert(len(r) == 2, "map round trip: size")
+	g1, ok1 := r[k1]
+	g2, ok2 := r[k2]
+	sym.Assert(ok1 && ok2 && g1 == v1 && g2 == v2, "map round trip: entries")
+	// keys are written in ascending order
+	lo := k1
+	if k2 < k1 {
+		lo = k2
+	}
+	var first string
+	_, err = BC.UnmarshalFromBytes(b1[1:], &first)
+	sym.Assert(err == nil && first == lo, "map entries are encoded in ascending key order")
+}
+
+// big integers (custom codec path): round trip for every value of up to BIGN bytes
+func VH_C23_bigint() {
+	n := sym.Range("n", 1, sym.Param("BIGN", 3))
+	mag := sym.Bytes("mag", n)
+	v := new(big.Int).SetBytes(mag)
+	if sym.Bool("neg") {
+		v.Neg(v)
+	}
+	bs, err := BC.MarshalToBytes(v)
+	sym.Assert(err == nil, "big integer encodes")
+	var r big.Int
+	rest, err := BC.UnmarshalFromBytes(bs, &r)
+	sym.Assert(err == nil && len(rest) == 0, "big integer decodes")
+	sym.Assert(r.Cmp(v) == 0, "big integer round trip")
+}
+
+// ---- decoding arbitrary input ----
+
+// any input: no crash; an accepted narrow integer fits its kind and agrees
+// with the int64 decoding (overflow is rejected, never wrapped)
+func VH_C23_decode_ints() {
+	in := sym.Bytes("in", sym.Len("n", sym.Param("NIN", 4)))
+	var w int64
+	rest64, err64 := BC.UnmarshalFromBytes(in, &w)
+	if err64 == nil {
+		sym.Assert(len(rest64) <= len(in), "the remainder is part of the input")
+	}
+	var a int8
+	_, err := BC.UnmarshalFromBytes(in, &a)
+	if err == nil {
+		sym.Reach("int8-accepted")
+		sym.Assert(err64 == nil, "what decodes as int8 decodes as int64")
+		sym.Assert(int64(a) == w, "int8 decoding never wraps")
+	} else if err64 == nil {
+		sym.Reach("int8-rejected")
+		sym.Assert(sym.Or(w < -128, w > 127), "int8 decoding rejects only values out of range")
+	}
+	var b int16
+	_, err = BC.UnmarshalFromBytes(in, &b)
+	if err == nil {
+		sym.Assert(err64 == nil && int64(b) == w, "int16 decoding never wraps")
+	} else if err64 == nil {
+		sym.Assert(sym.Or(w < -32768, w > 32767), "int16 decoding rejects only values out of range")
+	}
+}
+
+func VH_C23_decode_uints() {
+	in := sym.Bytes("in", sym.Len("n", sym.Param("NIN", 4)))
+	var w uint64
+	_, err64 := BC.UnmarshalFromBytes(in, &w)
+	var a uint8
+	_, err := BC.UnmarshalFromBytes(in, &a)
+	if err == nil {
+		sym.Reach("uint8-accepted")
+		sym.Assert(err64 == nil && uint64(a) == w, "uint8 decoding never wraps")
+	} else if err64 == nil {
+		sym.Reach("uint8-rejected")
+		sym.Assert(w > 255, "uint8 decoding rejects only values out of range")
+	}
+	var b uint16
+	_, err = BC.UnmarshalFromBytes(in, &b)
+	if err == nil {
+		sym.Assert(err64 == nil && uint64(b) == w, "uint16 decoding never wraps")
+	} else if err64 == nil {
+		sym.Assert(w > 65535, "uint16 decoding rejects only values out of range")
+	}
+}
+
+// any input into byte strings, strings, lists and structs: no crash, nothing
+// longer than the input comes out
+func VH_C23_decode_any() {
+	in := sym.Bytes("in", sym.Len("n", sym.Param("NIN2", 3)))
+	var bs []byte
+	rest, err := BC.UnmarshalFromBytes(in, &bs)
+	if err == nil {
+		sym.Reach("bytes-accepted")
+		sym.Assert(len(bs)+len(rest) <= len(in), "decoded bytes plus remainder fit in the input")
+	} else {
+		sym.Reach("bytes-rejected")
+	}
+	var s string
+	if _, err := BC.UnmarshalFromBytes(in, &s); err == nil {
+		sym.Assert(len(s) <= len(in), "a decoded string is no longer than the input")
+	}
+}
+
+func VH_C23_decode_any_list() {
+	in := sym.Bytes("in", sym.Len("n", sym.Param("NIN3", 2)))
+	var l []int16
+	if _, err := BC.UnmarshalFromBytes(in, &l); err == nil {
+		sym.Reach("list-accepted")
+		sym.Assert(len(l) <= len(in), "a decoded list has no more elements than input bytes")
+	}
+}
+
+func VH_C23_decode_any_struct() {
+	in := sym.Bytes("in", sym.Len("n", sym.Param("NIN3", 2)))
+	var st vhC23Struct
+	_, _ = BC.UnmarshalFromBytes(in, &st)
+}
+
+func VH_C23_decode_any_map() {
+	in := sym.Bytes("in", sym.Len("n", sym.Param("NIN3", 2)))
+	var m map[string]uint8
+	if _, err := BC.UnmarshalFromBytes(in, &m); err == nil {
+		sym.Assert(len(m) <= len(in), "a decoded map has no more entries than input bytes")
+	}
+	var bi big.Int
+	_, _ = BC.UnmarshalFromBytes(in, &bi)
+}
+
+// a length header that promises more than the input holds is rejected
+// (sizes beyond the input), for the short and the long header forms
+func vhC23ShortInput() []byte {
+	// header forms: short string / long string with a 1, 2 or 3 byte size
+	// field / short list / long list with a 1 or 2 byte size field; the
+	// short forms claim 1..3 or the maximal 55 bytes
+	var hdr uint8
+	switch sym.Choose("form", 8) {
+	case 0:
+		hdr = 0x81 + uint8(sym.Choose("claim", 3))
+	case 1:
+		hdr = 0xb7
+	case 2:
+		hdr = 0xb8
+	case 3:
+		hdr = 0xb9
+	case 4:
+		hdr = 0xba
+	case 5:
+		hdr = 0xc1 + uint8(sym.Choose("claim", 3))
+	case 6:
+		hdr = 0xf7
+	default:
+		hdr = 0xf8
+	}
+	lenlen := 0
+	var claimed uint64
+	var in []byte
+	switch {
+	case hdr <= 0xb7:
+		claimed = uint64(hdr - 0x80)
+	case hdr <= 0xbf:
+		lenlen = int(hdr - 0xb7)
+	case hdr <= 0xf7:
+		claimed = uint64(hdr - 0xc0)
+	default:
+		lenlen = int(hdr - 0xf7)
+	}
+	in = append(in, hdr)
+	if lenlen > 0 {
+		lb := sym.Bytes("lb", lenlen)
+		in = append(in, lb...)
+		for _, x := range lb {
+			claimed = claimed<<8 | uint64(x)
+		}
+	}
+	have := sym.Len("have", sym.Param("HAVE", 1))
+	in = append(in, sym.Bytes("data", have)...)
+	sym.Assume(claimed > uint64(have))
+	sym.Reach("short")
+	return in
+}
+
+func VH_C23_size_beyond_input() {
+	in := vhC23ShortInput()
+	var bs []byte
+	_, err := BC.UnmarshalFromBytes(in, &bs)
+	sym.Assert(err != nil, "a byte string whose declared size exceeds the input is rejected")
+}
+
+func VH_C23_size_beyond_input_list() {
+	in := vhC23ShortInput()
+	var l []uint16
+	_, err := BC.UnmarshalFromBytes(in, &l)
+	sym.Assert(err != nil, "a list whose declared size exceeds the input is rejected")
+}
+
+func VH_C23_size_beyond_input_struct() {
+	in := vhC23ShortInput()
+	var st vhC23Struct
+	_, err := BC.UnmarshalFromBytes(in, &st)
+	sym.Assert(err != nil, "a struct whose declared size exceeds the input is rejected")
 }
